@@ -233,8 +233,31 @@ func genHistory(r *rand.Rand, g *wsclient.Gen, seed int64) *history {
 			h.Steps = append(h.Steps, wsclient.Step{Kind: "raw", Raw: undecodable[r.Intn(len(undecodable))]})
 			h.EndByClose = true
 			closed = true
-		case x < 68:
+		case x < 64:
 			h.Steps = append(h.Steps, wsclient.Step{Kind: "write", Op: g.NextOp(prefer()), PauseUS: pause(r)})
+		case x < 68: // a subscription that ran successfully fails on a RE-run (retry with back-off), then ends
+			id := pick()
+			h.Steps = append(h.Steps, boomSet(0))
+			if live[id] == nil {
+				st := newSub(id, true)
+				st.Wait, st.PauseUS = true, 0
+				h.Steps = append(h.Steps, st)
+			}
+			h.Steps = append(h.Steps, wsclient.Step{Kind: "idle"})
+			h.Steps = append(h.Steps, boomSet(int64(1+r.Intn(wsclient.BoomShapes)))) // invalidates the failing fields: the re-run fails
+			h.Steps = append(h.Steps, wsclient.Step{Kind: "touch", PauseUS: 500 + r.Intn(3000)})
+			switch r.Intn(3) {
+			case 0: // ends while failing
+				delete(live, id)
+				h.Steps = append(h.Steps, wsclient.Step{Kind: "unsub", ID: id, Wait: true, PauseUS: pause(r)})
+			case 1: // recovers, then ends
+				h.Steps = append(h.Steps, boomSet(0), wsclient.Step{Kind: "idle"})
+				delete(live, id)
+				h.Steps = append(h.Steps, wsclient.Step{Kind: "unsub", ID: id, Wait: true, PauseUS: pause(r)})
+			default: // the connection closes while it is failing
+				h.Steps = append(h.Steps, wsclient.Step{Kind: "close", Wait: true})
+				closed = true
+			}
 		case x < 71:
 			h.Steps = append(h.Steps, wsclient.Step{Kind: "touch", PauseUS: pause(r)})
 		case x < 77:
@@ -421,7 +444,7 @@ func TestCheck(t *testing.T) {
 	defer run.Finish()
 	run.Rule("histories over one websocket connection (scripted JSONSocket, recording SubscriptionLogger, WithMaxSubscriptions 2-4, 0-9 pass-through middlewares): 10-35 steps of subscribe / unsubscribe / mutate / echo / url / malformed envelopes with ids from a pool of 3 shared by ALL message types (plus fresh ids), undecodable frames, " +
 		"writes and invalidate-everything steps, resolver failures (initial and on re-run; plain, safe, and errors wrapping context.Canceled / DeadlineExceeded of a resolver-owned context; failing mutations), context cancellation, socket close at a random step (ReadJSON error) or through a failing WriteJSON, gate steps (a resolver of an in-flight run is held while an unsubscribe(+re-subscribe) / close / cancel / colliding mutate / subscribe lands), " +
-		"an unsubscribe-all / close sent a fraction of the write-then-read delay after a write that invalidates an idle subscription, a failing-subscribe+unsubscribe+re-subscribe motif, unsubscribe+subscribe played while a closeSubscription call is held at its entry, writes injected at hook points; every subscription query carries a unique tag that its resolvers log and a field that creates a reactive.Resource with a Cleanup counter; some also select a live-query field that registers a counted Resource inside the public reactive.Cache and then fails (initially / transiently on re-runs). " +
+		"an unsubscribe-all / close sent a fraction of the write-then-read delay after a write that invalidates an idle subscription, a motif: a successful subscription fails on a re-run (retry), then unsubscribes / recovers and unsubscribes / the connection closes, a failing-subscribe+unsubscribe+re-subscribe motif, unsubscribe+subscribe played while a closeSubscription call is held at its entry, writes injected at hook points; every subscription query carries a unique tag that its resolvers log and a field that creates a reactive.Resource with a Cleanup counter; some also select a live-query field that registers a counted Resource inside the public reactive.Cache and then fails (initially / transiently on re-runs). " +
 		"reactive.WriteThenReadDelay is 0 in 2/5 of the histories and 0.5-3 ms in the rest. Every history ends with socket close, three invalidate-everything settle rounds and a quiescence wait. 8 pinned histories first; the last four are stress histories, each 1600 (thorough 6000) rounds of subscribe x4 / one write invalidating all / mutation + unsubscribe x4 pipelined at once, with a per-round timing jitter (Stop racing the wake-up of a re-run or of the initial run, under RerunImmediately contention). Non-trivial = the history has an end-by-close, an id collision or a failure. Distinct = step-kind sequence + end kinds of the instances.")
 	run.Assume("a subscription instance is a logger Subscribe call inside the handle window of a subscribe message; it ends at the first of: logger Unsubscribe(id), read-enter after its unsubscribe message, ServeJSONSocket returned")
 	run.Assume("Unsubscribe logger calls for ids of mutations (never subscribed) are tolerated")
